@@ -17,7 +17,7 @@ ID = "C05"
 LEVEL = "exploration"
 RULE = ("Cases: FunctorMap with workers 1..3, chunk size 1..5, 1..3 calls on one instance, inputs of length 0..12 (shorter than the worker "
         "count included) as list / range / generator with drawn delays; mul_p_map with workers 1..3, length 0..10, 1..2 consecutive calls "
-        "and a work-queue bound as on machines with 1..16 CPUs. pools.Queue and FunRunner.WORK_QUEUE/RESULTS_QUEUE are pipe-queue "
+        "and a work-queue bound as on machines with 1..16 CPUs; the pipe behind each queue holds an unbounded number of items or (large payloads) only 1..2 undelivered items. pools.Queue and FunRunner.WORK_QUEUE/RESULTS_QUEUE are pipe-queue "
         "stand-ins (per-producer in-flight FIFO, delivery a scheduler step), worker processes are scheduler tasks on fork copies, the "
         "schedule is generated. Oracle: every call yields/returns [f(x) for x in data]; no deadlock; no result left in the results "
         "queue after a call; all workers finished after __exit__/return. E5: all schedules with <=1 (quick) / <=2 (thorough) deviations "
@@ -43,8 +43,8 @@ def f(x):
 
 
 class RecPipe(prims.SimPipeQueue):
-    def __init__(self, maxsize=0, name="pipe"):
-        super().__init__(maxsize, name)
+    def __init__(self, maxsize=0, name="pipe", pipe_cap=None):
+        super().__init__(maxsize, name, pipe_cap)
         self.got = []
         self.empty_while_inflight = 0
 
@@ -86,7 +86,7 @@ def run_sim(case):
         return f(x)
 
     def mkq(maxsize=0):
-        q = RecPipe(maxsize, name="pq%d" % len(r.queues))
+        q = RecPipe(maxsize, name="pq%d" % len(r.queues), pipe_cap=case.get("pipe_cap"))
         r.queues.append(q)
         return q
 
@@ -229,7 +229,7 @@ def _c(n, chunk=1, inp="list"):
 
 SMALL = [
     {"kind": "fmap", "workers": 2, "calls": [_c(3), _c(2, 2)], "slow": {"0": 20}, "_drawn": False},
-    {"kind": "mulp", "workers": 2, "wq_bound": 2, "calls": [_c(3)], "slow": {"0": 20}, "_drawn": False},
+    {"kind": "mulp", "workers": 2, "wq_bound": 2, "calls": [_c(3)], "slow": {"0": 20}, "pipe_cap": 1, "_drawn": False},
     {"kind": "fmap", "workers": 3, "calls": [_c(1), _c(0)], "_drawn": False},
 ]
 
@@ -271,10 +271,12 @@ def strategies(tier):
     fmap = st.fixed_dictionaries({"kind": st.just("fmap"), "workers": st.sampled_from([1, 2, 2, 3]),
                                   "calls": st.lists(call, min_size=1, max_size=3),
                                   "slow": st.dictionaries(st.sampled_from(["0", "1", "2", "5"]), st.sampled_from([5, 50, 500]), max_size=2),
+                                  "pipe_cap": st.sampled_from([None, None, 1, 2]),
                                   "sched": schedules.strategy()})
     mulp = st.fixed_dictionaries({"kind": st.just("mulp"), "workers": st.sampled_from([1, 2, 3]), "wq_bound": st.sampled_from([1, 2, 4, 16]),
                                   "calls": st.lists(PC.call_strategy(max_n=10).map(lambda c: dict(c, mode="o", chunk=1)), min_size=1, max_size=2),
                                   "slow": st.dictionaries(st.sampled_from(["0", "1", "2"]), st.sampled_from([5, 50, 500]), max_size=2),
+                                  "pipe_cap": st.sampled_from([None, None, 1, 2]),
                                   "sched": schedules.strategy()})
     n = 250000 if big else 4000
     return [("functormap", fmap, 2 * n // 3), ("mul_p_map", mulp, n // 3),
